@@ -378,8 +378,8 @@ def first_diff(a, b):
 def run(ctx):
     rng = random.Random(ctx.seed * 1000003 + 13)
     thorough = ctx.tier == "thorough"
-    n_small = 100000 if thorough else 2000
-    n_stress = 400 if thorough else 20
+    n_small = 400000 if thorough else 2000
+    n_stress = 1200 if thorough else 20
     par = ctx.cores if thorough else min(8, ctx.cores)
     dist = G.Counter()
     failures, disagreements, notes = [], [], []
